@@ -17,6 +17,7 @@ CONSTANTS
 INVARIANT C11_TotalResult
 INVARIANT C11_DeliveredImpliesAccepted
 INVARIANT C11_Class
+INVARIANT C11_MailVerdict
 %(own)s
 INVARIANT C11_NoSpuriousFailure
 INVARIANT C14_Bounded
